@@ -30,6 +30,7 @@ def run(ctx):
         ctx.guard("C06", "const values", lambda: data.const_census(ctx, prog, data.CONST_SCOPES["C06"], floor=1))
         ctx.guard("C06", "validator-outcomes", lambda: normal.validator_outcomes(ctx, prog))
         ctx.guard("C06", "parser-init", lambda: parser.initial_values(ctx, prog))
+        ctx.guard("C06", "run-counters", lambda: normal.run_counters(ctx, prog, ("validator", "parser")))
         ctx.guard("C06", "normalize-step", lambda: normal.normalize_step(ctx, prog))
         ctx.guard("C06", "run-reports", lambda: parser.run_reports(ctx, prog))
         ctx.guard("C06", "summaries", lambda: summary.check(ctx, prog, '::normalize|::is_normalized|::clone_normalized|verify_block_hash', floor=2))
